@@ -85,8 +85,9 @@ Definition spec_step (sp : spec) (o : op) : spec * res aerr out :=
       end
   | DropHandle id => (mkSpec (sp_regions sp) (filter (fun x => negb (x =? id)) (sp_held sp)), Ok OUnit)
   | Retain keep =>
-      (* defined when no region outside `keep` is held (otherwise the real outcome depends on
-         hash-map iteration order and the property says nothing) *)
+      (* refused as a whole, with no effect, when a region outside `keep` is still held *)
+      if existsb (fun kv => negb (existsb (fun y => y =? fst kv) keep) && sp_is_held sp (fst kv)) (sp_regions sp)
+      then (sp, Err RegionStillReferenced) else
       (mkSpec (filter (fun kv => existsb (fun y => y =? fst kv) keep) (sp_regions sp))
               (filter (fun x => existsb (fun y => y =? x) keep) (sp_held sp)), Ok OUnit)
   | Flush => (sp, Ok OUnit)            (* the count returned by flush is not part of the reference *)
